@@ -92,7 +92,7 @@ def decode_seq(d, nested):
 
 def observe(enc, call, o):
     """harness observation -> Coq obs14 term"""
-    if o is None or o.get("st") in ("timeout", "panic"):
+    if o is None or o.get("st") in ("timeout", "panic", "crash"):
         return "OBad"
     if o["st"] == "err":
         return "OErr"
